@@ -184,7 +184,19 @@ func (e *Engine) Resolve(ops []AnchOp, opts ...document.ResolutionOption) (View,
 		}
 	}
 	p := processor.New("verif", pub, e.PC, processor.WithUnpublishedOperationStore(unpub))
-	rm, err := p.Resolve(e.Suffix, opts...)
+	return e.guarded(func() (*protocol.ResolutionModel, error) { return p.Resolve(e.Suffix, opts...) })
+}
+
+// guarded runs a real resolution; a panic inside the library becomes a view that equals no specification view
+// (document token -99) instead of crashing the harness.
+func (e *Engine) guarded(f func() (*protocol.ResolutionModel, error)) (v View, rm *protocol.ResolutionModel, err error) {
+	defer func() {
+		if r := recover(); r != nil {
+			err = fmt.Errorf("PANIC in resolution: %v", r)
+			v, rm = View{Exists: true, Doc: []int{-99}, Uc: -99, Rc: -99}, nil
+		}
+	}()
+	rm, err = f()
 	return e.Alpha_(rm, err), rm, err
 }
 
@@ -210,8 +222,9 @@ func (e *Engine) ResolveSplit(ops []AnchOp, extra []bool, dup bool, opts ...docu
 		}
 	}
 	p := processor.New("verif", pub, e.PC, processor.WithUnpublishedOperationStore(unpub))
-	rm, err := p.Resolve(e.Suffix, append([]document.ResolutionOption{document.WithAdditionalOperations(additional)}, opts...)...)
-	return e.Alpha_(rm, err), rm, err
+	return e.guarded(func() (*protocol.ResolutionModel, error) {
+		return p.Resolve(e.Suffix, append([]document.ResolutionOption{document.WithAdditionalOperations(additional)}, opts...)...)
+	})
 }
 
 // Alpha_ abstracts a real resolution result.
